@@ -4,12 +4,24 @@ import json, os
 HERE = os.path.dirname(os.path.abspath(__file__))
 VERIF = os.path.dirname(HERE)
 
+def entry(what, note, design_ref, technique="Lean 4 proof about an executable model + translator-regenerated tables + model/implementation correspondence + failing-input search on the real code", category="proof"):
+    return dict(text=what, note=note, design_ref=design_ref, technique=technique, category=category)
+
+
+COMMON_NOTE = ("Trusted: Lean 4.33 kernel (axioms audited per theorem: subset of propext, Classical.choice, Quot.sound; no sorry/native_decide); "
+               "harness/translate.py (cross-checked every run by harness/gencheck.py and the correspondence); the hand-written model is tied to /repo "
+               "by differential execution only, so the theorems speak about the code as far as the correspondence generators reach. ")
+
 CHECKS = {
- "C19": dict(
-   text="Lean 4 theorems state that every straight-line interval primitive (generated from src/common.py on every run) equals its position-set definition for all well-formed intervals, and that the list sweeps equal their set-theoretic specification for all sorted disjoint lists; a correspondence check runs the executable model and the real functions on exhaustive small universes and random large instances.",
-   note="Trusted: Lean kernel; translator harness/translate.py (cross-checked by the correspondence); hand-written model of the loop functions tied by differential execution only. Theorems proved so far are listed in the evidence file (theorems); functions that are modelled and corresponded but not yet covered by a theorem are named in DESIGN.md §7/C19.",
-   technique="Lean 4 proof over generated definitions + model/implementation correspondence",
-   design_ref="§7 C19"),
+ "C19": entry(
+   "Theorems state that every straight-line interval primitive (regenerated from src/common.py on every run) equals its position-set definition for all well-formed intervals, and that the list sweeps (coverage, Jaccard, merge, prefix/suffix sums, junction/exon inversion, both binary searches incl. termination) and isoform profiles equal their set-theoretic specification for all sorted disjoint lists, grounded in position counts; a correspondence check runs model and real functions on exhaustive small universes and random large instances.",
+   COMMON_NOTE + "Functions modelled and corresponded but not yet covered by a theorem are listed in docs/C19.md.", "§7 C19, docs/C19.md"),
+ "C17": entry(
+   "Theorems over all reference annotations, chromosome strings and call histories: id allocation terminates and is fresh, novel transcript/gene ids are unique and never collide with reference ids (incl. ids of an earlier IsoQuant run), exon_id is a function of (chr,start,end,strand) over any get_id/dump history and preserves reference exon_ids; model tied to the real id classes and GFFPrinter by correspondence and to the pipeline by two-run scenarios.",
+   COMMON_NOTE + "One known finding (reference id of chromosome A located on chromosome B). See docs/C17.md.", "§7 C17, docs/C17.md"),
+ "C18": entry(
+   "Theorems: for every reachable memo state and query history the Canonical flag equals the pure function of the reference sequence (declaratively: every intron has a dinucleotide pair of the strand's generated table); StrandDetector memo purity; strand vote / clean strand / read strand / novel-model strand characterised and shown never to contradict all evidence; tied to the real IOSupport, StrandDetector, get_assignment_strand and construct_fl_isoforms by correspondence and to pipeline outputs by recomputation from the FASTA.",
+   COMMON_NOTE + "See docs/C18.md.", "§7 C18, docs/C18.md"),
 }
 
 NOT_APPLICABLE = {}
